@@ -39,11 +39,17 @@ MUT_SPLIT = re.compile(r"(\n|\[\[|\]\]|\{\||\|\}|\|-|\|\||!!|\||''+|</?[a-zA-Z]+
 
 @st.composite
 def soup_case(draw, max_lex):
-    kind = draw(st.sampled_from(["soup", "soup", "soup", "nest", "mutdoc"]))
+    kind = draw(st.sampled_from(["soup", "soup", "soup", "nest", "mutdoc", "misnest"]))
     if kind == "soup":
         lex = draw(S.soup(max_lex))
         classes = sorted({c for c, _ in lex})
         parts = [l for _, l in lex]
+        depth = 0
+    elif kind == "misnest":
+        parts = [draw(S.misnest())]
+        if draw(st.booleans()):
+            parts += [l for _, l in draw(S.soup(3))]
+        classes = ["misnest"]
         depth = 0
     elif kind == "mutdoc":
         # a well-formed document of C02's grammar, cut at its markup delimiters and damaged by 1-8 edits
@@ -228,6 +234,33 @@ def signature(root):
 FIXED_POINT = {"fix_nesting": "_fix_nesting", "fix_paragraphs": "_fix_paragraphs"}
 
 
+def _uncounted_copy():
+    """AdvancedNode.copy() deep-copies whatever hangs off the subtree - every Link node carries the site's NsHandler with
+    its whole siteinfo, ~1.8e5 call events per link and copy.  That is a (large) constant per copied link, not growth, and
+    it swamped the per-pass call budget on trees of 30 nodes (a false alarm of this harness, see DESIGN I.4): the work of
+    one copy() is counted as one call plus the number of copied nodes."""
+    from mwlib.parser import advtree
+
+    if getattr(advtree.AdvancedNode.copy, "_vf_wrapped", False):
+        return
+    orig = advtree.AdvancedNode.copy
+
+    def copy(self):
+        prof = sys.getprofile()
+        sys.setprofile(None)
+        try:
+            new = orig(self)
+        finally:
+            sys.setprofile(prof)
+        w = getattr(prof, "__self__", None)
+        if isinstance(w, Work):
+            w.count += 1 + sum(1 for _ in new.allchildren())
+        return new
+
+    copy._vf_wrapped = True
+    advtree.AdvancedNode.copy = copy
+
+
 def drive(case, want_c05=True, want_c06=True):
     """Returns dict(failures=[(prop, bucket, detail)], changed=set(pass names), nodes=int, parse_failure=bool)"""
     from mwlib.parser import advtree
@@ -252,6 +285,8 @@ def drive(case, want_c05=True, want_c06=True):
     tc = TreeCleaner(tree, save_reports=True)
     sig, nodes = signature(tree)
     res["nodes"] = nodes
+    _uncounted_copy()
+    raised = False
     for idx, name in enumerate(tc.cleaner_methods):
         budget = int(1e6 + 2e3 * nodes * nodes)
         w = Work(budget)
@@ -273,7 +308,10 @@ def drive(case, want_c05=True, want_c06=True):
             import traceback
 
             res["failures"].append(("C06", "exception:%s:%s" % (name, repo_frame_bucket(e)), traceback.format_exc()[-1500:]))
-            return res  # the half-cleaned tree is what a writer would get; later passes are not meaningful
+            if not want_c05:
+                return res
+            # TreeCleaner.clean() swallows the exception and goes on with the next pass: C05 judges the tree the writer gets
+            raised = True
         nsig, nodes = signature(tree)
         if nsig != sig:
             res["changed"].add(name)
@@ -282,6 +320,9 @@ def drive(case, want_c05=True, want_c06=True):
         if v:
             res["failures"].append(("C05", "after-%s:%s" % (name, v), "pass #%d" % idx))
             return res
+        if raised:
+            raised = False
+            continue
         # fixed-point passes must have reached their fixed point
         if want_c06 and name in FIXED_POINT:
             try:
